@@ -112,7 +112,7 @@ def script_text(spec: Spec, variant: int, dofile: str, gates: bool = False) -> s
     # that process is gone and then carries on to its end.  (The redo processes further up cannot finish before the orphan
     # does: it has inherited the pipes whose end-of-file tells them that their job is over.)
     L.append('rv_t="$rv_n"; rvk() { if [ "${RV_KILL:-}" = "$rv_t:$1" ]; then kill -KILL 0; sleep 30; fi; '
-             'if [ "${RV_KILL:-}" = "$rv_t:$1:p" ]; then rv_pp=$PPID; kill -KILL $rv_pp; '
+             'if [ "${RV_KILL:-}" = "$rv_t:$1:p" ]; then rv_pp=$PPID; echo "K $rv_t $1" >> "$RV_TRACE"; kill -KILL $rv_pp; '
              'while kill -0 "$rv_pp" 2>/dev/null; do sleep 0.01; done; fi; }')
     L.append('rvk 0')
     g = [0]
